@@ -62,6 +62,11 @@ impl CounterCollection {
         let new_count = counter.count();
         let info = self.info_mut(counter.known_kind());
 
+        // Override a previously-set input counter and its counts.
+        if info.count_input.take().is_some() {
+            info.counts.clear();
+        }
+
         if let Some(old_count) = info.counts.first_mut() {
             *old_count = new_count;
         } else {
